@@ -48,3 +48,25 @@ pub proof fn lemma_submit_rate(tn: nat, tl: nat, b: nat)
     }
 }
 } // verus!
+verus! {
+// ------------------------------------------------------------------ sequence lemmas for pagination (C17)
+pub proof fn lemma_filter_push<V>(s: Seq<V>, x: V, p: spec_fn(V) -> bool)
+    ensures s.push(x).filter(p) == (if p(x) { s.filter(p).push(x) } else { s.filter(p) })
+{
+    reveal(Seq::filter);
+    assert(s.push(x).drop_last() =~= s);
+}
+/// a filtered prefix is a prefix of the filtered sequence
+pub proof fn lemma_filter_take_prefix<V>(s: Seq<V>, n: int, p: spec_fn(V) -> bool)
+    requires 0 <= n <= s.len(),
+    ensures
+        s.take(n).filter(p).len() <= s.filter(p).len(),
+        s.filter(p).take(s.take(n).filter(p).len() as int) == s.take(n).filter(p),
+{
+    assert(s =~= s.take(n) + s.skip(n));
+    Seq::<V>::filter_distributes_over_add(s.take(n), s.skip(n), p);
+    let a = s.take(n).filter(p); let b = s.skip(n).filter(p);
+    assert(s.filter(p) == a + b);
+    assert((a + b).take(a.len() as int) =~= a);
+}
+} // verus!
